@@ -31,6 +31,8 @@ var repo = "/repo"
 
 var verifDir = "/verif"
 
+var instrMu sync.Mutex
+
 type Build struct {
 	Kind   string            // "sched" (instrumented + scheduler) or "plain"
 	Coarse []string          // files whose atomics are not scheduling points
@@ -328,15 +330,18 @@ func buildAll(scratch, key string, b Build, pkgs map[string]bool) (map[string]st
 		if b.Track {
 			opts.Track = instr.DefaultTrack()
 		}
+		instrMu.Lock() // the type checker's source importer works relative to the process cwd: one instrumentation at a time
 		for _, p := range []string{"internal", "internal/clock", "internal/xruntime"} {
 			res, err := instr.Package(filepath.Join(repo, p), filepath.Join(dir, "gen", p), opts)
 			if err != nil {
+				instrMu.Unlock()
 				return nil, err
 			}
 			for o, g := range res.Files {
 				overlay[o] = g
 			}
 		}
+		instrMu.Unlock()
 		fr := filepath.Join(dir, "gen", "fastrand.go")
 		if err := os.WriteFile(fr, []byte(instr.FastrandFile), 0o644); err != nil {
 			return nil, err
